@@ -294,11 +294,15 @@ func strPin(term, s string) []string {
 	return out
 }
 
+// replayImports collects the packages named by generated type expressions (path by name).
+var replayImports = map[string]string{}
+
 func goTypeName(t types.Type, fn *ssa.Function) string {
 	return types.TypeString(t, func(p *types.Package) string {
 		if fn.Pkg != nil && p == fn.Pkg.Pkg {
 			return ""
 		}
+		replayImports[p.Name()] = p.Path()
 		return p.Name()
 	})
 }
@@ -323,6 +327,9 @@ func replay(p *Program, cfg *PropConfig, r *oblResult, dir, repo, verif string) 
 	if o.Kind != "nopanic" && o.Kind != "ensures" && o.Kind != "nooverflow" {
 		write("no replay harness for obligation kind " + o.Kind + "; solver output attached")
 		return path, false, "no-replay"
+	}
+	for k := range replayImports {
+		delete(replayImports, k)
 	}
 	args, model, why := extractInputs(o, fn, r.FR)
 	rf.Model = model
@@ -374,7 +381,15 @@ func replay(p *Program, cfg *PropConfig, r *oblResult, dir, repo, verif string) 
 	for i := 0; i < nres; i++ {
 		fmt.Fprintf(&call, "\t\tout[\"r%d\"] = verifShow(r%d)\n", i, i)
 	}
-	src := "package " + pkgName + "\n\nimport (\n\t\"encoding/json\"\n\t\"fmt\"\n\t\"math\"\n\t\"testing\"\n)\n\nvar _ = math.MinInt64\n\n" +
+	extraImports := ""
+	for name, ipath := range replayImports {
+		switch name {
+		case "json", "fmt", "math", "testing":
+			continue
+		}
+		extraImports += "\t" + name + " \"" + ipath + "\"\n"
+	}
+	src := "package " + pkgName + "\n\nimport (\n\t\"encoding/json\"\n\t\"fmt\"\n\t\"math\"\n\t\"testing\"\n" + extraImports + ")\n\nvar _ = math.MinInt64\n\n" +
 		"func verifShow(v interface{}) interface{} {\n\tswitch x := v.(type) {\n\tcase error:\n\t\tif x == nil { return nil }\n\t\treturn map[string]string{\"error\": x.Error()}\n\tcase []byte:\n\t\treturn map[string]interface{}{\"bytes\": fmt.Sprintf(\"%q\", string(x)), \"nil\": x == nil}\n\tcase float64:\n\t\treturn map[string]interface{}{\"f64bits\": fmt.Sprint(math.Float64bits(x)), \"text\": fmt.Sprint(x)}\n\tcase nil:\n\t\treturn nil\n\t}\n\treturn v\n}\n\n" +
 		"func TestVerifReplay(t *testing.T) {\n\tout := map[string]interface{}{}\n\tfunc() {\n\t\tdefer func() {\n\t\t\tif r := recover(); r != nil {\n\t\t\t\tout[\"panic\"] = fmt.Sprint(r)\n\t\t\t}\n\t\t}()\n"
 	if recvExpr != "" {
